@@ -337,7 +337,7 @@ fn analyze_fn<'tcx>(tcx: TyCtxt<'tcx>, ldid: LocalDefId, hints: &BTreeMap<String
                 Choice::IdxFrom(k) => {
                     part.push((pname.clone(), format!(">={}", k)));
                     st.ranges.push((*k, u64::MAX as u128));
-                    Val::Range { id: (st.ranges.len() - 1) as u32, lo: *k, hi: u64::MAX as u128, w: 64 }
+                    Val::Range { id: (st.ranges.len() - 1) as u32, lo: *k, hi: u64::MAX as u128, w: 64, mul: 1, add: 0 }
                 }
                 Choice::Variant(v) => {
                     part.push((pname.clone(), format!("variant{}", v)));
